@@ -243,6 +243,12 @@ def stray_line_breaks(text, nlc):
             j = text.find("`", i + 1)
             i = n if j < 0 else j + 1
             continue
+        if c == "{":
+            j = text.find("}", i + 1)
+            k = min([x for x in (text.find("\n", i + 1), text.find("\r", i + 1)) if x >= 0] or [n])
+            if 0 <= j < k:
+                i = j + 1
+                continue
         if c == "/" and text.startswith("/*", i):
             j = text.find("*/", i + 2)
             i = n if j < 0 else j + 2
